@@ -516,6 +516,21 @@ def d_delegate( ctx ):
             res.ok( src, f, '%s splits dotted keys with _resolve' % f.name )
         else:
             res.bad( src, f, f.name, 'dotted keys must be split by _resolve in every accessor' )
+    # setdefault: "absent" is decided by membership, never by the stored value being None (None is a value)
+    sd = src.get( 'dotdict_base.setdefault' )
+    KEY = sd.args.args[1].arg
+    stores_ = [ s_ for s_ in ast.walk( sd ) if isinstance( s_, ast.Assign ) and pmatch( s_.targets[0], 'self[%s]' % KEY ) is not None ]
+    if not stores_:
+        raise AnalysisError( 'dotdict_base.setdefault: store of the default not found' )
+    g_ = [ a_ for a_ in src.ancestors( stores_[0] ) if isinstance( a_, ( ast.If, ast.Try )) and any( a_ is x_ for x_ in ast.walk( sd )) ]
+    if g_ and isinstance( g_[0], ast.If ) and ( pmatch( g_[0].test, '%s not in self' % KEY ) is not None or pmatch( g_[0].test, 'not self.__contains__( %s )' % KEY ) is not None ):
+        res.ok( src, g_[0], 'setdefault stores the default iff the key is not a member' )
+    elif g_ and isinstance( g_[0], ast.Try ) and any( dotted( h_.type ) == 'KeyError' and any( stores_[0] is x_ for x_ in ast.walk( h_ )) for h_ in g_[0].handlers ):
+        res.ok( src, g_[0], 'setdefault stores the default iff lookup raises KeyError' )
+    elif g_ and isinstance( g_[0], ast.If ) and any( isinstance( c_, ast.Compare ) and any( isinstance( x_, ast.Constant ) and x_.value is None for x_ in [ c_.left ] + c_.comparators ) for c_ in ast.walk( g_[0].test )):
+        res.bad( src, g_[0], g_[0].test, 'setdefault takes "the value is None" for "the path is absent": a leaf that stores None is overwritten by the default (and lookup then returns the default)' )
+    else:
+        raise AnalysisError( 'dotdict_base.setdefault: absence test not recognised: %s' % ( norm_text( g_[0].test ) if g_ and isinstance( g_[0], ast.If ) else '?' ))
     return res
 
 
@@ -853,6 +868,7 @@ def t_tnet( ctx ):
     fm = pmatch( frets[-1].value, "_siz + b':' + _out + _typ" ) if frets else None
     OUT = dotted( fm['_out'] ) if fm is not None else 'out'
     TYP = dotted( fm['_typ'] ) if fm is not None else 'typ'
+    unknown_branches = []
     for t in tests:
         typ = None; out = None
         for s in t.body:
@@ -864,6 +880,31 @@ def t_tnet( ctx ):
                 if is_call_to( s.value, 'dump_dict' ): typ = b'}'
                 elif is_call_to( s.value, 'dump_list' ): typ = b']'
                 elif try_fold( s.value ) == b'0:~': typ = b'~'
+        # a branch that delegates to a module-level helper ( `return helper( data )`, possibly through a memo ): take the helper's own
+        # payload / tag assignments; a conditional tag ( b'^' if ... else b'#' ) stands for both tags
+        if typ is None:
+            helpers = [ c for s_ in t.body for c in ast.walk( s_ ) if isinstance( c, ast.Call ) and isinstance( c.func, ast.Name )
+                        and c.func.id not in ( 'dump_dict', 'dump_list', 'dump', 'str', 'repr', 'len', 'type', 'isinstance' ) and src.get( c.func.id, required=False ) is not None ]
+            for hc in helpers[:1]:
+                hf = src.get( hc.func.id )
+                hr = [ s_ for s_ in hf.body if isinstance( s_, ast.Return ) ]
+                hm = None
+                for pat in ( "_siz + b':' + _out + _typ", "( '%d:' % len( _out )).encode( 'ascii' ) + _out + _typ", "( '%d:' % len( _out )).encode( _e ) + _out + _typ" ):
+                    hm = hm or ( pmatch( hr[-1].value, pat ) if hr else None )
+                if hm is None:
+                    unknown_branches.append( t )
+                    continue
+                hout = [ s_.value for s_ in hf.body if isinstance( s_, ast.Assign ) and dotted( s_.targets[0] ) == dotted( hm['_out'] ) ]
+                htyp = [ s_.value for s_ in hf.body if isinstance( s_, ast.Assign ) and dotted( s_.targets[0] ) == dotted( hm['_typ'] ) ]
+                tags = []
+                for tv_ in htyp:
+                    for c_ in ast.walk( tv_ ):
+                        if isinstance( c_, ast.Constant ) and isinstance( c_.value, bytes ) and len( c_.value ) == 1:
+                            tags.append( c_.value )
+                for tg_ in tags:
+                    enc[tg_] = ( t.test, hout[-1] if hout else None, t )
+                if not tags:
+                    unknown_branches.append( t )
         if typ is not None:
             enc[typ] = ( t.test, out, t )
         # dispatch must use exact-type tests (type( data ) is X / in (...)) or `data == None`; isinstance would need ordering
@@ -983,7 +1024,24 @@ def t_tnet( ctx ):
     INVERSE = TAGS
     for need in INVERSE:
         if need not in enc:
+            if unknown_branches:
+                raise AnalysisError( 'dump: a dispatch branch does not fit the modelled encoder idioms (%s); tag %r not located' % ( norm_text( unknown_branches[0].test )[:50], need ))
             res.bad( src, dump, 'dump never emits %r' % need, 'a supported value type lost its encoder branch' )
+    # memoised encodings: a cache keyed by the raw VALUE confuses values that are equal across types ( 1 == 1.0 == True, equal hashes ) but
+    # have different encodings / type tags
+    mod_dicts = { s_.targets[0].id for s_ in src.tree.body if isinstance( s_, ast.Assign ) and isinstance( s_.targets[0], ast.Name )
+                  and ( isinstance( s_.value, ast.Dict ) or is_call_to( s_.value, 'dict', 'collections.OrderedDict', 'OrderedDict' )) }
+    for f_ in [ x for x in src.tree.body if isinstance( x, ast.FunctionDef ) and x.name.startswith( 'dump' ) ]:
+        pnames = { a.arg for a in f_.args.args }
+        for n_ in ast.walk( f_ ):
+            key_ = None
+            if isinstance( n_, ast.Subscript ) and dotted( n_.value ) in mod_dicts:
+                key_ = n_.slice
+            elif isinstance( n_, ast.Call ) and isinstance( n_.func, ast.Attribute ) and dotted( n_.func.value ) in mod_dicts and n_.func.attr in ( 'get', 'setdefault', 'pop' ) and n_.args:
+                key_ = n_.args[0]
+            if key_ is not None and isinstance( key_, ast.Name ) and key_.id in pnames:
+                res.bad( src, n_, '%s: encoding memoised under the bare value %s' % ( f_.name, norm_text( n_ )[:60] ),
+                         'dict keys compare by ==: 1, 1.0 and True share one slot, so whichever was dumped first decides the type tag of the others - dump( 250.0 ) after dump( 250 ) yields an integer' )
     # length prefix: siz = ('%d' % len(out)).encode('ascii'); return siz + b':' + out + typ
     rets = [ s for s in dump.body if isinstance( s, ast.Return ) ]
     if rets and pmatch( rets[-1].value, "_siz + b':' + _out + _typ" ):
